@@ -617,6 +617,12 @@ class Exec:
                 if fn is not None:
                     yield from self.call_function(FuncVal(c.module, fn, c), [obj], {}, st, node)
                     return
+                if name == "__setattr__":
+                    def _sa(ex, st_, args, kwargs, node_, obj=obj):
+                        for s2 in ex.setattr(obj, args[0], args[1], st_, node_):
+                            yield s2, None
+                    yield st, Builtin("object.__setattr__", _sa)
+                    return
                 c, fn = p.cls.find("methods", name)
                 if fn is not None:
                     if name in c.staticmethods:
